@@ -55,6 +55,9 @@ def run_impl(case, d):
         frames = {r: fw.dump_frame_res(case, ta.t.get_trace(r), sym) for r in ranks}
         if case["params"].get("decoded"):
             ta.t.decode_symbol_ids()
+        if case.get("case_no", 0) % 4 == 2:
+            import cp_common
+            cp_common.cp_analysis_first(ta, frames, ranks)        # history: another analysis of the same object first
         try:
             df = ta.get_comm_comp_overlap(visualize=False)
             out = {int(rec["rank"]): float(rec["comp_comm_overlap_pctg"]) for rec in df.to_dict("records")}
